@@ -100,9 +100,10 @@ DelM(a, m) ==
     /\ seq' = Append(seq, [k |-> "DelM", app |-> a, m |-> m])
     /\ UNCHANGED psig0
 
+(* as repaired (ce736c3): once none of its models are left the app leaves the signature *)
 DelApp(a) ==
     /\ a \in DOMAIN psig /\ DOMAIN psig[a] # {}
-    /\ psig' = [psig EXCEPT ![a] = [m \in {} |-> <<>>]]
+    /\ psig' = [x \in (DOMAIN psig) \ {a} |-> psig[x]]
     /\ deleted' = deleted \cup { <<a, m>> : m \in DOMAIN psig[a] }
     /\ seq' = Append(seq, [k |-> "DelApp", app |-> a])
     /\ UNCHANGED psig0
